@@ -87,6 +87,8 @@ def gen_rule(rng, block, opcode, subblocks):
             continue
         if rng.random() < 0.25:
             wrap = rng.choice(["[]", "()", "#"])
+        if wrap and k == 0 and pat[-1]["p"] == "ws" and rng.random() < 0.3:
+            pat.pop()            # the wrapper glued to the mnemonic: `ld({a})`, `ld#{a}` (the line may still write a blank there)
         if wrap == "#":
             pat.append({"p": "lit", "lc": "#", "c0": "#", "nch": 1})
         elif wrap:
